@@ -77,6 +77,12 @@ class World:
         scen['refuse_takes'] = rng.choice([0, 0, 0.5, 2.0]) if fault == 'disconnect-refuse' else 0
         # byte communicators with variable-length replies: the tail is fetched by the getFullReply hook
         scen['varlen'] = kind == 'bytes' and rng.random() < 0.4
+        # an identification exchange on every (re)connect: the reconnecting thread talks to the device itself
+        scen['ident'] = rng.random() < 0.3 and not scen['varlen']
+        if fault in ('disconnect', 'disconnect-refuse') and rng.random() < 0.5:
+            # callers that keep calling while the communicator is disconnected and being reconnected (which takes a while)
+            scen['pause'] = rng.choice([0.7, 1.6, 3.2])
+            scen['accept_takes'] = rng.choice([0, 0.5, 0.5])
         scen['drop_inside'] = scen['varlen'] and fault in ('disconnect', 'disconnect-refuse') and rng.random() < 0.6
         # the driver's getFullReply hook rejects the reply right before the drop with an error without a message
         # (the last logged error is then an empty string when the connection is lost)
@@ -90,6 +96,13 @@ class World:
             scen['wait_before'] = rng.choice([0, 0.3, 0.3])
             scen['chunk'] = None
             scen['callers'] = [[['comm'] for _ in ops] for ops in callers]
+        if rng.random() < 0.12:
+            # an outage with callers that keep calling: the device drops early, reconnects take a while and include an
+            # identification exchange, 3..4 callers issue 4..6 single commands spread over the following seconds
+            comm_only = rng.random() < 0.6
+            scen.update(fault='disconnect', fault_at=rng.choice([0, 1, 2]), varlen=False, drop_inside=False, hook_rejects=False, ident=True, refuse_takes=0,
+                        accept_takes=rng.choice([0.5, 1.0]), pause=rng.choice([0.5, 0.8, 1.1]), chunk=None, wait_before=0, delay=rng.choice([0.0, 0.01]),
+                        callers=[[['comm'] if comm_only or rng.random() < 0.7 else ['multi', 2, 0.05] for _ in range(rng.choice([4, 5, 6]))] for _ in range(rng.choice([3, 4]))])
         return scen
 
     # ---------------------------------------------------------------- scripted device
@@ -118,6 +131,11 @@ class World:
                         if len(buf) < 8:
                             break
                         cmd, buf = buf[:8], buf[8:]
+                    if scen.get('ident') and cmd in (b'IDN', b'QIDN____'):
+                        # the identification exchange of a (re)connect: answered at once, outside the fault script
+                        dev['idents'] = dev.get('idents', 0) + 1
+                        sock.peer_send(b'R:IDN' + eolb if scen['kind'] == 'string' else b'RIDN____')
+                        continue
                     dev['nreq'] += 1
                     n = dev['nreq']
                     dev['cmds'].append((s.now, cmd))
@@ -193,6 +211,8 @@ class World:
                 if scen.get('refuse_takes'):
                     D.vsleep(scen['refuse_takes'])       # a slow refusal (time-out of the connect instead of an immediate reset)
                 raise ConnectionRefusedError(111, 'Connection refused')
+            if scen.get('accept_takes') and dev['dropped']:
+                D.vsleep(scen['accept_takes'])           # a reconnect that takes a while before it succeeds
             dev['connected'].append(s.now)
             dev['socks'].append(sock)
             D.CoThread(target=serve, args=(sock,), name=f'device{len(dev["connected"])}').start()
@@ -230,6 +250,8 @@ class World:
                 cfg['io']['end_of_line'] = scen['eol']
             if scen.get('wait_before'):
                 cfg['io']['wait_before'] = {'value': scen['wait_before']}
+            if scen.get('ident'):
+                cfg['io']['identification'] = [('IDN', 'R:IDN')] if scen['kind'] == 'string' else [('Q I D N _ _ _ _', 'R I D N _ _ _ _')]
             node = self.nodes.Node(cfg, testonly=False).build()
             io = node.secnode.modules['io']
             info['io'] = io
@@ -245,6 +267,8 @@ class World:
 
             def caller(i):
                 for j, op in enumerate(scen['callers'][i]):
+                    if j and scen.get('pause'):
+                        D.vsleep(scen['pause'] * (1 + 0.13 * i))
                     rec_ = {'op': op[0], 't_call': s.now}
                     results[(i, j)] = rec_
                     try:
@@ -349,7 +373,19 @@ class World:
             r.sample({'scenario': scen, 'device_commands': [(round(t - self.D.T0, 3), c.decode('latin1')) for t, c in dev['cmds']][:10],
                       'results': {f'{k[0]}.{k[1]}': {kk: (vv if not isinstance(vv, bytes) else vv.decode('latin1')) for kk, vv in v.items() if kk in ('op', 'error')} for k, v in results.items()}})
         if s.status != 'ok':
-            r.violation(f'C16/run-{s.status}', f'{s.alive[:4]}', case)
+            key_ = f'C16/run-{s.status}'
+            if s.status == 'deadlock':
+                # mechanism: which operation holds the communicator lock while it waits (for the access lock of a reconnect)
+                # the poll thread waits for the communicator lock: who holds it?
+                held = [o for n, _, o in s.lock_waits if '__pollThread' in n]
+                oname = (held[0] if held else None) or 'nobody'
+                if oname.startswith('caller'):
+                    cur = [v['op'] for k, v in sorted(results.items()) if k[0] == int(oname[6:]) and 't_ret' not in v]
+                    oname = 'a-' + (cur[0] if cur else 'finished') + '-call'
+                elif '__pollThread' in oname:
+                    oname = 'the-poller'
+                key_ += f'/communicator-lock-held-by-{oname}' + ('/with-identification' if scen.get('ident') else '')
+            r.violation(key_, f'{s.alive[:4]}', case)
             return
         if s.escaped:
             r.violation('C16/exception-escapes-thread', f'{s.escaped[0][:2]}', dict(case, traceback=s.escaped[0][2]))
@@ -414,6 +450,8 @@ class World:
                 r.count('drops_inside_a_variable_length_reply')
             if dev.get('rejected'):
                 r.count('drops_after_a_reply_rejected_without_message')
+            if dev.get('idents', 0) > 1:
+                r.count('reconnects_with_identification_exchange')
             after = [u for u in updates if u[0] >= dev['dropped']]
             if not any(not v for _, v in after):
                 # nobody may have talked to the device after the drop: then the loss is not yet visible - only judged if a call failed
@@ -437,9 +475,10 @@ class World:
             who = [w_ for a, w_ in zip(dev['attempts'], dev['attempt_by']) if a > dev['dropped']]
             for src in ('caller', 'poller'):
                 mine = [a for a, w_ in zip(att, who) if w_ == src]
-                if src == 'poller' and scen.get('refuse_takes'):
-                    # the poll thread keeps a fixed grid: after a slow attempt the next one may follow at the next grid point,
-                    # less than one interval after the START of the previous one (catching up, as for every slow poll).
+                if src == 'poller':
+                    # the poll thread keeps a fixed grid: after a slow or delayed attempt (a slow refusal, a poll that had to wait
+                    # for the access lock held by a transaction) the next one may follow at the next grid point, less than one
+                    # interval after the START of the previous one (catching up, as for every late poll).
                     # judged on the rate: never more than two attempts started within one interval
                     if any(c - a < 3 - 0.05 for a, c in zip(mine, mine[2:])):
                         r.violation('C16/reconnect-attempts-too-frequent/by-pollers', f'reconnect interval 3 s, three attempts of the poller within one interval: {[round(a - dev["dropped"], 3) for a in mine]}', case)
